@@ -267,11 +267,16 @@ func (rd *remoteDelivery) connectionForDomain(ctx context.Context, domain string
 	// each other. Therefore it is enough to enforce strict security only on
 	// the path to the MX even if it does not support the REQUIRETLS to propagate
 	// this requirement further.
+	//
+	// The flag is dropped for this connection only: the requirement still
+	// applies to the other recipient domains of the message and to later
+	// delivery attempts (msgMeta is shared with the queue).
+	mailOpts := rd.msgMeta.SMTPOpts
 	if ok, _ := conn.Client().Extension("REQUIRETLS"); rd.rt.relaxedREQUIRETLS && !ok {
-		rd.msgMeta.SMTPOpts.RequireTLS = false
+		mailOpts.RequireTLS = false
 	}
 
-	if err := conn.Mail(ctx, rd.mailFrom, rd.msgMeta.SMTPOpts); err != nil {
+	if err := conn.Mail(ctx, rd.mailFrom, mailOpts); err != nil {
 		conn.Close()
 		return nil, err
 	}
